@@ -4,7 +4,7 @@
 From Coq Require Import Reals ZArith List Bool Lra Lia String.
 From PyLib Require Import PyVal PyBuiltins Ideal Whnf PyEval.
 From Gen Require Import M_base M_Angle M_Epoch M_Interpolation M_Coordinates M_Earth M_Sun.
-From Proofs.C14 Require Import C14_tac C14_angle.
+From Proofs.C14 Require Import C14_tac C14_angle C14_jde.
 Import ListNotations.
 Open Scope R_scope.
 
@@ -52,6 +52,21 @@ Proof.
   pyrun2.
   subst E. unfold red360, eot_arg. Rlit_norm.
   repeat f_equal; try lra; try (unfold Rdiv; ring).
+Qed.
+
+(* with the value of the module constant JDE2000 (C14_jde.JDE2000_val) *)
+Lemma eot_closed_form_J2000 jde lon lat r eps alpha dec dpsi l0 :
+  -360 < l0 < 360 -> -360 < alpha < 360 ->
+  Angle___init__ Rops (VObj cAngle [VNone; VNone]) (VTuple [VFloat (L0poly ((jde - 2451545) / 365250))]) (VDict []) = ang l0 ->
+  Sun_apparent_geocentric_position Rops (epo jde) (VBool true) = VTuple [ang lon; ang lat; VFloat r] ->
+  f_true_obliquity Rops (VTuple [epo jde]) (VDict []) = ang eps ->
+  f_ecliptical2equatorial Rops (ang lon) (ang lat) (ang eps) = VTuple [ang alpha; ang dec] ->
+  f_nutation_longitude Rops (VTuple [epo jde]) (VDict []) = ang dpsi ->
+  let E := red360 (eot_arg l0 alpha dpsi eps) * 4 in
+  Sun_equation_of_time Rops (epo jde) = VTuple [VInt (Rtrunc E); VFloat (Rfmod (Rabs E) 1 * 60)].
+Proof.
+  intros H1 H2 H3 H4 H5 H6 H7. apply (eot_closed_form jde 2451545 lon lat r eps alpha dec dpsi l0); try assumption.
+  exact JDE2000_val.
 Qed.
 
 (* structural consequences of the closed form *)
